@@ -890,8 +890,15 @@ class FlatSamplerCache:
 
     def get_flat_sampler(self, *args, **kwargs):
         """Get or create the flattened sampler for these arguments."""
-        # Simple caching based on argument signature
-        args_sig = (len(args), tuple(kwargs.keys()))
+        # Cache on the argument signature: structure, shapes and dtypes. The
+        # staged sampler is specialised to the abstract values it was traced
+        # with, so a binding that is kept and called again with arguments of
+        # another shape must be staged again.
+        leaves, treedef = jtu.tree_flatten((args, kwargs))
+        args_sig = (
+            treedef,
+            tuple((jnp.shape(leaf), jnp.result_type(leaf)) for leaf in leaves),
+        )
         if self._cached_args_signature != args_sig:
             keyful_with_shape = self.config.get_keyful_sampler_with_shape()
             flat_sampler, _ = self._make_flat(keyful_with_shape)(
